@@ -175,6 +175,12 @@ Definition check (s : spec) (user : json) (o : observed) : option string :=
       end
   | _ => match o with OErr => None | _ => Some "a document that holds no batch must be refused with Err" end
   end.
+(* cases whose strings are not plain ASCII are compared through the payload hash on both sides
+   (printing of such strings is not canonical; the hash is over the UTF-8 bytes) *)
+Definition force_hash (s : string) : string :=
+  let (tag, r) := split_space s in
+  let (id, payload) := split_space r in
+  tag ++ " " ++ id ++ " #" ++ show_Z (hash payload).
 Definition line_S (id : Z) (s : spec) (user : json) (o : observed) : string :=
   line "S" id (match check s user o with
                | None => show_observed o
